@@ -50,6 +50,9 @@ def check_case(ctx, case):
     mode = case.get("mode", "tree")
     ctx.count("cases")
     has_guard = bool(S.kinds(s) & GUARDED)
+    import smoothmath as sm
+    e = S.build(s, mode)            # one long-lived object per case (defined and undefined points alternate on it)
+    firsts = []
     for pj in case["points"]:
         p = S.point_from_json(pj)
         res = R.NORMAL.evaluate(s, p)
@@ -57,8 +60,8 @@ def check_case(ctx, case):
         ctx.hist("reference_status", st)
         if st in ("oos", "indet", "missing"):
             continue
-        e = S.build(s, mode)
         out = M.call(e.at, S.make_point(p))
+        firsts.append((p, out, st))
         ctx.evaluation()
         ctx.hist("family", case.get("family", "?"))
         ctx.hist("guard", case.get("guard", "-"))
@@ -80,6 +83,18 @@ def check_case(ctx, case):
         if st == "undef" or ctx.rng.random() < 0.05:
             ctx.sample({"spec": S.show(s), "point": S.show_point(p), "reference": st,
                         "why": (res.undef[0] if res.undef else None), "library": out.brief()})
+
+
+    # (appended to check_case) revisit in reverse order with derivative queries in between
+    vs = sorted(S.variables(s))
+    for i, (p, out, st) in enumerate(reversed(firsts)):
+        if vs and len(firsts) > 1:
+            q = firsts[i % len(firsts)][0]
+            M.call(lambda: sm.Partial(e, vs[0]).at(S.make_point(q)))
+        again = M.call(e.at, S.make_point(p))
+        ctx.count("revisits")
+        if again.bits() != out.bits():
+            ctx.violation("reevaluation_differs", f"{S.show(s)} at {S.show_point(p)} ({st}): first {out.brief()}, after other evaluations and derivative queries on the same object {again.brief()}")
 
 
 def deciding(m):
